@@ -707,6 +707,12 @@ def run_check(modname, tier, seed, only=None, mutations=None, write_evidence=Tru
             for cname, good in rp.get("claims", []):
                 if not good and not any(fnmatch.fnmatch(cname, f.get("claim", "*")) and _cfg_match(configs[i], f.get("config")) for f in findings_open):
                     reference_failures.append((i, cname, rc["drawn"], rp, sd))
+        elif rp.get("status") == "exception" and rc["status"] == "ok":
+            # the real code raises on the reference inputs although the harness body ran through on the
+            # instrumented side (e.g. a body whose real work only happens on the plain import)
+            cname = f"no_exception:{rp.get('exc_type')}"
+            if not any(fnmatch.fnmatch(cname, f.get("claim", "*")) and _cfg_match(configs[i], f.get("config")) for f in findings_open):
+                reference_failures.append((i, cname, rc["drawn"], rp, sd))
         diffs = _compare_validation(rc, rp)
         if diffs:
             harness_errors.append(f"translator validation mismatch cfg={cfg_key(configs[i])}: {diffs[:4]}")
